@@ -98,7 +98,7 @@ func siteHasUsage(a *txnAnalyzer, s *txnSite) bool {
 
 func checkC10(p *Prog, r *Result, tier string) {
 	r.Technique = "compensation-completeness analysis of every utils.Txn/PCR call site (effect table + CFG reachability with branch pruning on failureByCond) and must-hold lock sets over the synchronous call graph"
-	r.Explanation = "Decides two structural necessary conditions of 'node usage == sum of recorded workloads': (E1) at every Txn/PCR site whose closures change node usage or workload records, no failing path the combinator reports leaves such a change without its inverse (a self-inverse rewrite must write a value snapshot, not an alias of the mutated object) (T1 cond not atomic, T2 then can fail, T3 effect inside then, T4 PCR prepare is pure, T5 plugin fan-out recorded and reverted, T5c the fan-out helper returns the partial answer map together with the error, LED an effect the rollback finds through a list is recorded in that list before any other step can fail); (ADM) a re-allocation is admitted by testing the full new request (delta + origin) against the pool from which the origin was subtracted, in both the CPU-bound and the memory branch; (L4) every usage mutator called from cluster/calcium runs with the pod lock held on every synchronous path (the plugin's read-modify-write has no transaction of its own). TC: the closures run under the context the combinator hands them."
+	r.Explanation = "Decides two structural necessary conditions of 'node usage == sum of recorded workloads': (E1) at every Txn/PCR site whose closures change node usage or workload records, no failing path the combinator reports leaves such a change without its inverse (a self-inverse rewrite must write a value snapshot, not an alias of the mutated object) (T1 cond not atomic, T2 then can fail, T3 effect inside then, T4 PCR prepare is pure, T5 plugin fan-out recorded and reverted, T5c the fan-out helper returns the partial answer map together with the error, LED an effect the rollback finds through a list is recorded in that list before any other step can fail); (ADM) a re-allocation is admitted by testing the full new request (delta + origin) against the pool from which the origin was subtracted, in both the CPU-bound and the memory branch; (RBSEL) a partial rollback gives back the resources at the failed indices, not a prefix of the list; (MIR, shared with C08) Add adds and Sub subtracts every usage field unconditionally; (L4) every usage mutator called from cluster/calcium runs with the pod lock held on every synchronous path (the plugin's read-modify-write has no transaction of its own). TC: the closures run under the context the combinator hands them."
 	r.NotCovered = "numeric equality of usage and the workload sum; faults inside compensations; worker-pool saturation; that allocation never exceeds capacity (numeric)"
 	r.Assumptions = []string{"A2", "A3", "effect table (printed under tables) lists the lasting effects and their inverses"}
 	a := newTxnAnalyzer(p, r)
@@ -126,6 +126,75 @@ func checkC10(p *Prog, r *Result, tier string) {
 	checkL4Usage(p, r, a.g)
 	checkCallHelper(p, r)
 	checkReallocAdmission(p, r)
+	checkRollbackSelection(p, r)
+	// MIR (shared with C08): the arithmetic that produces deltas is exact — Add adds and Sub subtracts every usage field,
+	// unconditionally; a delta that lacks an entry leaves usage above the sum of the workloads for ever
+	checkMirror(p, r)
+}
+
+// RBSEL: when only some instances of a node failed, the resources given back are those of the FAILED instances: the list
+// handed to RollbackAlloc is built by indexing the node's resource list with each failed index (utils.Map over the index
+// list, or a loop appending res[idx]) — a prefix of the list has the right length but other cores.
+func checkRollbackSelection(p *Prog, r *Result) {
+	r.min("RBSEL", 1)
+	n := 0
+	for _, fn := range p.sortedFuncs("cluster/calcium") {
+		if fn.Body == nil {
+			continue
+		}
+		fn.inspectBody(func(x ast.Node) bool {
+			c, ok := x.(*ast.CallExpr)
+			if !ok || fn.Callee(c) == nil || objName(fn.Callee(c)) != "resource.Manager.RollbackAlloc" || len(c.Args) != 3 {
+				return true
+			}
+			// only the partial rollback: the enclosing function ranges over a map of index lists
+			var idxList types.Object
+			for f := fn; f != nil && idxList == nil; f = f.Parent {
+				ast.Inspect(f.Body, func(y ast.Node) bool {
+					rs, ok := y.(*ast.RangeStmt)
+					if !ok || rs.Value == nil || !(rs.Body.Pos() <= c.Pos() && c.End() <= rs.Body.End()) {
+						return true
+					}
+					if t := f.typeOf(rs.Value); t != nil {
+						if sl, ok := t.Underlying().(*types.Slice); ok && isIntLike(sl.Elem()) {
+							idxList = f.objOf(rs.Value)
+						}
+					}
+					return true
+				})
+			}
+			if idxList == nil {
+				return true
+			}
+			n++
+			key := fn.Name + " / the resources rolled back are those at the failed indices"
+			arg := unparen(c.Args[2])
+			// resolve a local
+			if id, ok := arg.(*ast.Ident); ok {
+				if d := fn.singleDef(fn.objOf(id)); d != nil {
+					arg = unparen(d)
+				}
+			}
+			why := "the list handed to RollbackAlloc is `" + exprStr(arg) + "`, not the node's resources at each failed index: other instances' cores are marked free and the failed instances' cores stay in use (the totals still match, the per-core map does not)"
+			if mc, ok := arg.(*ast.CallExpr); ok && fn.Callee(mc) != nil && fn.Callee(mc).Name() == "Map" && len(mc.Args) == 2 && fn.objOf(mc.Args[0]) == idxList {
+				if lit, ok := unparen(mc.Args[1]).(*ast.FuncLit); ok && len(lit.Body.List) == 1 && lit.Type.Params != nil && len(lit.Type.Params.List) == 1 && len(lit.Type.Params.List[0].Names) == 1 {
+					pn := lit.Type.Params.List[0].Names[0].Name
+					if rt, ok := lit.Body.List[0].(*ast.ReturnStmt); ok && len(rt.Results) == 1 {
+						if ix, ok := unparen(rt.Results[0]).(*ast.IndexExpr); ok {
+							if id, ok := unparen(ix.Index).(*ast.Ident); ok && id.Name == pn {
+								why = ""
+							}
+						}
+					}
+				}
+			}
+			r.check2(why, "RBSEL", key, p.pos(c), "utils.Map(failedIndices, func(idx) { return resources[node][idx] })")
+			return true
+		})
+	}
+	if n == 0 {
+		r.undecided("RBSEL", "cluster/calcium partial rollback of an allocation", "", "no RollbackAlloc inside a loop over failed index lists found")
+	}
 }
 
 func checkC11(p *Prog, r *Result, tier string) {
